@@ -441,6 +441,17 @@ func (cs *clusterSim) readOnce(n *Node, db string, t *Tape) {
 		if store.IsPrimary() {
 			role = "primary"
 		}
+		if wantIm.N() > 0 {
+			// The connection chose its locks from the journal mode it found on
+			// page 1. If that is not the mode of the image committed at the
+			// reported position, page 1 was rewritten between its SHARED lock and
+			// its first read (a replicated journal-mode change being applied): the
+			// in-flight-open window, reported under its own oracle.
+			if wh, _, _ := decodeDBHeader(wantIm.Pages[0]); wh.WAL != hdr.WAL {
+				r.Failf(cs.oracle("reader-image.mode-flip"), "%s (%s) at %s of %s: a connection that took SHARED and then read page 1 found journal mode WAL=%v, the image committed at that position has WAL=%v; a journal-mode change was applied between its SHARED lock and its first read and it went on under the locks of the wrong mode: %s", n.Name, role, pos, db, hdr.WAL, wh.WAL, diff)
+				return
+			}
+		}
 		r.Failf(cs.oracle("reader-image"), "%s (%s) at %s of %s: image read through the mount differs from the image committed there: %s", n.Name, role, pos, db, diff)
 		return
 	}
